@@ -401,8 +401,10 @@ class StubSevm:
         self.branches = []
 
     def create_branch(self, ex, cond, pc):
+        # contract of create_branch: the successor inherits what the parent path holds at the time of the call
+        inh = [c[0] if isinstance(c, tuple) else c for c in ex.path.appended]
         nx = StubEx({}, None)
-        self.branches.append((ex, cond, pc, nx))
+        self.branches.append((ex, z3.And(*inh, cond) if inh else cond, pc, nx))
         return nx
 
 
